@@ -800,7 +800,7 @@ fn do_replay(path: &str) -> i32 {
     match ex.verdict {
         Some((sig, detail)) => {
             println!("replayed: signature={sig}\ndetail: {detail}");
-            if sig == want_sig && eh == want_hash {
+            if sig == want_sig && (eh == want_hash || want_hash.is_empty()) {
                 println!("VIOLATION property={PROP} replay={path}");
                 1
             } else {
@@ -816,11 +816,27 @@ fn do_replay(path: &str) -> i32 {
 }
 
 pub fn main(args: &Args) -> i32 {
+    let base_seed = args.num("--seed").unwrap_or_else(simcore::seed_from_env);
+    let emit = |idx: u64, sig: &str| -> String {
+        let fx = Fixtures::load();
+        let sweep = sweep_cases(&fx);
+        let c = case_for_index(idx, base_seed, &fx, &sweep);
+        let path = format!("{}/replays/{PROP}-{}-{}.json", simcore::verif_dir(), base_seed, idx);
+        simcore::write_json_atomic(
+            &path,
+            &json!({"property": PROP, "engine": "sim_io/c12 (SimTransport + SimReader)", "base_seed": base_seed, "run_index": idx,
+                    "case": c.to_json(), "signature": sig, "event_hash": "",
+                    "detail": "the process died inside a library call while executing this case (not minimised)"}),
+        );
+        path
+    };
+    if let simcore::isolate::Supervised::Done(rc) = simcore::isolate::supervise(PROP, args, emit) {
+        return rc;
+    }
     if let Some(path) = args.value("--replay") {
         return do_replay(path);
     }
     let tier = simcore::tier_from(args);
-    let base_seed = args.num("--seed").unwrap_or_else(simcore::seed_from_env);
     let workers = args.num("--workers").map(|w| w as usize).unwrap_or_else(simcore::par::workers_from_env);
     let runs = args.num("--runs").unwrap_or(match tier {
         Tier::Quick => 300_000,
@@ -846,6 +862,7 @@ pub fn main(args: &Args) -> i32 {
         |_| Acc::default(),
         |acc: &mut Acc, j, _s: &AtomicBool| {
             let i = if j < runs { j } else { SWEEP_BASE + (j - runs) };
+            simcore::isolate::trace_run(i);
             let c = case_for_index(i, base_seed, &fx, &sweep);
             let ex = execute(&c);
             if j < det_n {
